@@ -201,10 +201,14 @@ Ltac gate_cases Hg w m :=
       [destruct (cstate_eqb (st w) LogonSent && negb (mtype_eqb (f_type m) TLogout)) eqn:Hi
       |destruct (cstate_eqb (st w) LogonRecv && negb (mtype_eqb (f_type m) TLogon) && negb (mtype_eqb (f_type m) TLogout)) eqn:Hi]]].
 
-Lemma send_refused : forall w m, send_gate w m = None \/ mtype_eqb (f_type m) TTest = true ->
-  send_msg m w = (inr XConn, w).
+(* the world in which the number has been selected *)
+Definition allocw (w : world) (s : cstate) (r : role) (no : Z) : world :=
+  mkW (nin w) no s r (maxres w) (dlv w) (ctor w) (base w) (log w) (past w).
+
+Lemma send_pre_refused : forall w m, send_gate w m = None \/ mtype_eqb (f_type m) TTest = true ->
+  send_pre m w = (inr XConn, w).
 Proof.
-  intros w m H. unfold send_msg. munfold.
+  intros w m H. unfold send_pre. munfold.
   assert (Hg : send_gate w m = send_gate w m) by reflexivity. revert Hg H. generalize (send_gate w m) at 2 3.
   intros g Hg H. gate_cases Hg w m; try reflexivity.
   - destruct H as [H|H]; [subst g; discriminate|]. destruct (f_type m); discriminate.
@@ -212,10 +216,54 @@ Proof.
   - destruct H as [H|H]; [subst g; discriminate|]. rewrite H. reflexivity.
 Qed.
 
+Lemma send_pre_passed : forall w m s r, send_gate w m = Some (s, r) -> mtype_eqb (f_type m) TTest = false ->
+  send_pre m w =
+    let n := if own_number m then f_seq m else nout w in
+    let W0 := allocw w s r (if own_number m then nout w else nout w + 1) in
+    if unjournaled m then (inl (out_frame m n), W0)
+    else let (x, W1) := persist_out (out_frame m n) W0 in
+         match x with inl _ => (inl (out_frame m n), W1) | inr e => (inr e, W1) end.
+Proof.
+  intros w m s r Hg Ht. unfold send_pre, own_number, allocw. munfold. cbv zeta.
+  gate_cases Hg w m; try discriminate; inversion Hg; subst s r; rewrite Ht;
+    cbn [nout nin st rl maxres dlv ctor base log past];
+    destruct (mtype_eqb (f_type m) TSeqReset || f_pd m); destruct (unjournaled m);
+    cbn [nout nin st rl maxres dlv ctor base log past]; cbv beta iota; rewrite ?world_eta; try reflexivity;
+    match goal with |- context [persist_out ?f ?W] => destruct (persist_out f W) as [[[]|e] W1] end; reflexivity.
+Qed.
+
+Lemma send_refused : forall w m, send_gate w m = None \/ mtype_eqb (f_type m) TTest = true ->
+  send_msg m w = (inr XConn, w).
+Proof. intros w m H. unfold send_msg, bind. rewrite (send_pre_refused w m H). reflexivity. Qed.
+
+Lemma send_fault_refused : forall d w m, send_gate w m = None \/ mtype_eqb (f_type m) TTest = true ->
+  send_fault d m w = (inr XConn, w).
+Proof. intros d w m H. unfold send_fault, bind. rewrite (send_pre_refused w m H). reflexivity. Qed.
+
 Lemma own_unjournaled : forall m, own_number m = false -> unjournaled m = false.
 Proof.
   intros m H. unfold own_number in H. unfold unjournaled. apply orb_false_iff in H. destruct H as [H1 H2].
   rewrite H1, H2. reflexivity.
+Qed.
+
+(* the world after the journal write of an original send *)
+Definition journaled_w (w : world) (s : cstate) (r : role) (f : frame) : world :=
+  mkW (nin w) (nout w + 1) s r (maxres w) (dlv w) (ctor w) (base w) (log w ++ map EStmt (persist_out_prims f)) (past w).
+
+Lemma send_pre_alloc_ok : forall w m s r, send_gate w m = Some (s, r) -> mtype_eqb (f_type m) TTest = false ->
+  own_number m = false -> has_out (jt w) (nout w) = false ->
+  send_pre m w = (inl (out_frame m (nout w)), journaled_w w s r (out_frame m (nout w))).
+Proof.
+  intros w m s r Hg Ht Ho Hh. rewrite (send_pre_passed w m s r Hg Ht), Ho, (own_unjournaled m Ho). cbv zeta.
+  set (f := out_frame m (nout w)). set (W0 := allocw w s r (nout w + 1)).
+  destruct (persist_out_ok f W0) as [Hp _]; [exact Hh|]. rewrite Hp. reflexivity.
+Qed.
+
+Lemma db_journaled_w : forall w s r f, has_out (jt w) (f_seq f) = false ->
+  db (journaled_w w s r f) = mkDb (ins_out_tab (jt w) f) (ins_out_tab (jt w) f).
+Proof.
+  intros w s r f Hh. unfold db, journaled_w. cbn [base log]. rewrite replay_app.
+  change (replay (base w) (log w)) with (db w). apply (persist_out_run_ok (db w) f Hh).
 Qed.
 
 (* an original send whose number is free in the journal: journaled, written, drained *)
@@ -225,30 +273,14 @@ Lemma send_alloc_ok : forall w m s r, send_gate w m = Some (s, r) -> mtype_eqb (
   /\ db (sent w s r (out_frame m (nout w)))
      = mkDb (ins_out_tab (jt w) (out_frame m (nout w))) (ins_out_tab (jt w) (out_frame m (nout w))).
 Proof.
-  intros w m s r Hg Ht Ho Hh. pose proof (own_unjournaled m Ho) as Hu.
-  set (f := out_frame m (nout w)).
-  assert (Hdb : db (sent w s r f) = mkDb (ins_out_tab (jt w) f) (ins_out_tab (jt w) f)).
-  { unfold db, sent, send_effects. cbn [base log]. rewrite replay_app, fold_left_app.
+  intros w m s r Hg Ht Ho Hh. set (f := out_frame m (nout w)).
+  split.
+  - unfold send_msg, bind. rewrite (send_pre_alloc_ok w m s r Hg Ht Ho Hh). fold f. munfold.
+    unfold journaled_w, sent, send_effects. cbn [nin nout st rl maxres dlv ctor base log past].
+    rewrite <- !app_assoc. reflexivity.
+  - unfold db, sent, send_effects. cbn [base log]. rewrite replay_app, fold_left_app.
     change (replay (base w) (log w)) with (db w).
-    destruct (persist_out_run_ok (db w) f Hh) as [_ Hf]. rewrite Hf. reflexivity. }
-  split; [|exact Hdb].
-  assert (Hgen : forall W0, nin W0 = nin w -> nout W0 = nout w + 1 -> st W0 = s -> rl W0 = r -> maxres W0 = maxres w ->
-            dlv W0 = dlv w -> ctor W0 = ctor w -> base W0 = base w -> log W0 = log w -> past W0 = past w ->
-            (let (s0, w') := persist_out f W0 in
-             match s0 with
-             | inl _ => (inl tt, mkW (nin w') (nout w') (st w') (rl w') (maxres w') (dlv w') (ctor w') (base w')
-                                     ((log w' ++ [EWrite f]) ++ [EDrain]) (past w'))
-             | inr e => (inr e, w')
-             end) = (inl tt, sent w s r f)).
-  { intros W0 H1 H2 H3 H4 H5 H6 H7 H8 H9 H10.
-    assert (HjW : jt W0 = jt w) by (unfold jt, db; rewrite H8, H9; reflexivity).
-    destruct (persist_out_ok f W0) as [Hp _]; [rewrite HjW; exact Hh|]. rewrite Hp.
-    cbn [with_log nin nout st rl maxres dlv ctor base log past]. unfold sent, send_effects.
-    rewrite H1, H2, H3, H4, H5, H6, H7, H8, H9, H10, <- !app_assoc. reflexivity. }
-  unfold send_msg. munfold. unfold own_number in Ho.
-  gate_cases Hg w m; try discriminate; inversion Hg; subst s r; rewrite Ht;
-    cbn [nout nin st rl maxres dlv ctor base log past]; rewrite Ho, Hu;
-    cbn [nout nin st rl maxres dlv ctor base log past]; apply Hgen; reflexivity.
+    destruct (persist_out_run_ok (db w) f Hh) as [_ Hf]. rewrite Hf. reflexivity.
 Qed.
 
 (* an unjournaled frame (PossDup copy, gap fill): written and drained only *)
@@ -257,12 +289,49 @@ Lemma send_unj : forall w m s r, send_gate w m = Some (s, r) -> mtype_eqb (f_typ
   send_msg m w = (inl tt, written w s r (nout w) (out_frame m (f_seq m))).
 Proof.
   intros w m s r Hg Ht Hu.
-  assert (Ho : mtype_eqb (f_type m) TSeqReset || f_pd m = true).
-  { unfold unjournaled in Hu. destruct (f_pd m); [apply orb_true_r|]. cbn in Hu. apply andb_prop in Hu.
+  assert (Ho : own_number m = true).
+  { unfold unjournaled in Hu. unfold own_number. destruct (f_pd m); [apply orb_true_r|]. cbn in Hu. apply andb_prop in Hu.
     destruct Hu as [Hu _]. rewrite Hu. reflexivity. }
-  unfold send_msg. munfold.
-  gate_cases Hg w m; try discriminate; inversion Hg; subst s r; rewrite Ht;
-    cbn [nout nin st rl maxres dlv ctor base log past]; rewrite Ho, Hu; reflexivity.
+  unfold send_msg, bind. rewrite (send_pre_passed w m s r Hg Ht), Ho, Hu. reflexivity.
+Qed.
+
+(* the same sends over a transport that raises in write() (d = false) or in drain() after the write (d = true) *)
+Definition fault_effects (d : bool) (f : frame) : list effect :=
+  map EStmt (persist_out_prims f) ++ (if d then [EWrite f] else []).
+
+Definition fault_sent (w : world) (s : cstate) (r : role) (d : bool) (f : frame) : world :=
+  mkW (nin w) (nout w + 1) s r (maxres w) (dlv w) (ctor w) (base w) (log w ++ fault_effects d f) (past w).
+
+Lemma send_fault_alloc_ok : forall d w m s r, send_gate w m = Some (s, r) -> mtype_eqb (f_type m) TTest = false ->
+  own_number m = false -> has_out (jt w) (nout w) = false ->
+  send_fault d m w = (inr XIO, fault_sent w s r d (out_frame m (nout w)))
+  /\ db (fault_sent w s r d (out_frame m (nout w)))
+     = mkDb (ins_out_tab (jt w) (out_frame m (nout w))) (ins_out_tab (jt w) (out_frame m (nout w))).
+Proof.
+  intros d w m s r Hg Ht Ho Hh. set (f := out_frame m (nout w)).
+  split.
+  - unfold send_fault, bind. rewrite (send_pre_alloc_ok w m s r Hg Ht Ho Hh). fold f.
+    destruct d; munfold; unfold journaled_w, fault_sent, fault_effects;
+      cbn [nin nout st rl maxres dlv ctor base log past]; rewrite <- ?app_assoc, ?app_nil_r; reflexivity.
+  - unfold db, fault_sent, fault_effects. cbn [base log]. rewrite replay_app, fold_left_app.
+    change (replay (base w) (log w)) with (db w).
+    destruct (persist_out_run_ok (db w) f Hh) as [_ Hf]. rewrite Hf. destruct d; reflexivity.
+Qed.
+
+Definition fault_written (w : world) (s : cstate) (r : role) (d : bool) (f : frame) : world :=
+  mkW (nin w) (nout w) s r (maxres w) (dlv w) (ctor w) (base w) (log w ++ (if d then [EWrite f] else [])) (past w).
+
+Lemma send_fault_unj : forall d w m s r, send_gate w m = Some (s, r) -> mtype_eqb (f_type m) TTest = false ->
+  unjournaled m = true ->
+  send_fault d m w = (inr XIO, fault_written w s r d (out_frame m (f_seq m))).
+Proof.
+  intros d w m s r Hg Ht Hu.
+  assert (Ho : own_number m = true).
+  { unfold unjournaled in Hu. unfold own_number. destruct (f_pd m); [apply orb_true_r|]. cbn in Hu. apply andb_prop in Hu.
+    destruct Hu as [Hu _]. rewrite Hu. reflexivity. }
+  unfold send_fault, bind. rewrite (send_pre_passed w m s r Hg Ht), Ho, Hu. cbv zeta.
+  destruct d; munfold; unfold fault_written, allocw; cbn [nin nout st rl maxres dlv ctor base log past];
+    rewrite ?app_nil_r; reflexivity.
 Qed.
 
 (* ------------------------------------------------------------------ invariants *)
@@ -404,6 +473,43 @@ Proof.
   - exact HR.
 Qed.
 
+(* an original send over a raising transport: refused, or journaled (and written when the fault is in drain()) *)
+Lemma send_fault_orig_rel : forall d m w r w', own_number m = false -> Out_ok w ->
+  send_fault d m w = (r, w') -> Rel w w'.
+Proof.
+  intros d m w r w' Ho Hout Hs.
+  destruct (mtype_eqb (f_type m) TTest) eqn:Ht.
+  { rewrite send_fault_refused in Hs by auto. inversion Hs; subst. apply Rel_refl; auto. }
+  destruct (send_gate w m) as [[s ro]|] eqn:Hg.
+  2:{ rewrite send_fault_refused in Hs by auto. inversion Hs; subst. apply Rel_refl; auto. }
+  destruct Hout as [Hc [Hso [Hrow Hpos]]].
+  set (f := out_frame m (nout w)) in *.
+  assert (Hh : has_out (jt w) (nout w) = false) by (apply has_out_false; exact Hrow).
+  destruct (send_fault_alloc_ok d w m s ro Hg Ht Ho Hh) as [He Hd]. fold f in He, Hd.
+  set (W' := fault_sent w s ro d f) in *.
+  rewrite He in Hs. inversion Hs; subst r w'. clear Hs.
+  assert (HjW' : jt W' = ins_out_tab (jt w) f) by (unfold jt at 1; rewrite Hd; reflexivity).
+  constructor.
+  - reflexivity.
+  - rewrite HjW'. reflexivity.
+  - rewrite HjW'. reflexivity.
+  - unfold Out_ok, clean. rewrite Hd, HjW'. cbn [committed cur sout rout ins_out_tab nout W' fault_sent f out_frame f_seq].
+    repeat split; try lia.
+    intros g Hg'. apply in_app_or in Hg'. destruct Hg' as [Hg'|[Hg'|[]]].
+    + apply Hrow in Hg'. lia.
+    + subst g. cbn. lia.
+  - cbn. lia.
+  - exists (fault_effects d f). split; [reflexivity|].
+    intros g Hg' Hor. unfold fault_effects in Hg'. rewrite writes_app, writes_stmts in Hg'. destruct d; cbn in Hg'.
+    + destruct Hg' as [Hg'|[]]. subst g. cbn. lia.
+    + contradiction.
+  - reflexivity.
+  - reflexivity.
+  - reflexivity.
+  - unfold AwOk. cbn [st maxres W' fault_sent]. intros Haw Hst. apply Haw.
+    eapply gate_awaiting; eauto.
+Qed.
+
 
 (* ------------------------------------------------------------------ sends that are not journaled; ResendRequest servicing *)
 
@@ -489,6 +595,21 @@ Proof.
   - exists [EWrite (out_frame m (f_seq m)); EDrain]. split; [cbn [written log]; rewrite <- app_assoc; reflexivity|].
     split; [reflexivity|]. intros g Hg'. cbn in Hg'. destruct Hg' as [Hg'|[]]. subst g. apply own_not_original; auto.
   - unfold AwOk. cbn [st maxres written]. intros Ha Hst. apply Ha. eapply gate_awaiting; eauto.
+Qed.
+
+Lemma send_fault_quiet : forall d m w r w', unjournaled m = true -> send_fault d m w = (r, w') -> Quiet w w'.
+Proof.
+  intros d m w r w' Hu Hs. pose proof (unjournaled_own m Hu) as Ho.
+  destruct (mtype_eqb (f_type m) TTest) eqn:Ht.
+  { rewrite send_fault_refused in Hs by auto. inversion Hs; subst. apply Quiet_refl. }
+  destruct (send_gate w m) as [[s ro]|] eqn:Hg.
+  2:{ rewrite send_fault_refused in Hs by auto. inversion Hs; subst. apply Quiet_refl. }
+  rewrite (send_fault_unj d w m s ro Hg Ht Hu) in Hs. inversion Hs; subst r w'. clear Hs.
+  constructor; try reflexivity.
+  - exists (if d then [EWrite (out_frame m (f_seq m))] else []). split; [reflexivity|].
+    split; [destruct d; reflexivity|]. intros g Hg'. destruct d; cbn in Hg'; [|contradiction].
+    destruct Hg' as [Hg'|[]]. subst g. apply own_not_original; auto.
+  - unfold AwOk. cbn [st maxres fault_written]. intros Ha Hst. apply Ha. eapply gate_awaiting; eauto.
 Qed.
 
 Definition QuietM {A} (m : M A) : Prop := forall w r w', m w = (r, w') -> Quiet w w'.
@@ -1121,7 +1242,10 @@ Definition KF_D11 (o : op) : bool :=
 (* D20: the application sends a SequenceReset WITHOUT GapFillFlag (and without PossDupFlag): it is journaled under its
    own number, the live counter does not move.  (Gap fills and PossDup messages are not journaled since the repair of D12.) *)
 Definition KF_D20 (o : op) : bool :=
-  match o with OSend m => own_number m && negb (unjournaled m) | _ => false end.
+  match o with
+  | OSend m | OSendFault _ m => own_number m && negb (unjournaled m)
+  | _ => false
+  end.
 
 Definition class_free (h : list op) : bool :=
   forallb (fun o => negb (KF_D11 o) && negb (KF_D20 o)) h.
@@ -1161,7 +1285,7 @@ Lemma op_step : forall w o, Inv w -> KF_D11 o = false -> KF_D20 o = false ->
 Proof.
   intros w o HI H11 H20.
   assert (Hgo : o <> ORestart -> Step w (run_op w o)).
-  { intros Hnr. unfold run_op. destruct o as [|f|m|b|]; cbn [step].
+  { intros Hnr. unfold run_op. destruct o as [|f|m|d m|b|]; cbn [step].
     - unfold set_st, upd. cbn [snd]. apply Rel_Step; auto.
       eapply Rel_live; [apply Rel_refl; apply HI|live_tac|]. intros _ E. cbn in E. discriminate.
     - destruct (process_message f w) as [r w'] eqn:E. cbn [snd].
@@ -1175,6 +1299,12 @@ Proof.
       + cbn [andb] in H20. apply negb_false_iff in H20.
         apply Quiet_Rel; [apply HI|]. eapply send_quiet; eauto.
       + eapply send_orig_rel; eauto. apply HI.
+    - destruct (send_fault d m w) as [r w'] eqn:E. cbn [snd]. cbn [KF_D20] in H20.
+      apply Rel_Step; auto.
+      destruct (own_number m) eqn:Ho.
+      + cbn [andb] in H20. apply negb_false_iff in H20.
+        apply Quiet_Rel; [apply HI|]. eapply send_fault_quiet; eauto.
+      + eapply send_fault_orig_rel; eauto. apply HI.
     - destruct (disconnect b w) as [r w'] eqn:E. cbn [snd].
       apply Rel_Step; auto. eapply disconnect_rel; eauto. apply HI.
     - contradiction. }
@@ -1381,8 +1511,8 @@ Lemma wire_op : forall n0 m w o, Inv w -> KF_D11 o = false -> KF_D20 o = false -
 Proof.
   intros n0 m w o HI H11 H20 (Hm & Hn & HW).
   destruct (op_step w o HI H11 H20) as [_ HS].
-  destruct o as [|f|x|b|].
-  5:{ unfold run_op. cbn [step upd snd].
+  destruct o as [|f|x|d x|b|].
+  6:{ unfold run_op. cbn [step upd snd].
       destruct (restart_inv w HI) as (_ & _ & Ho & Haw & _). unfold Wire. rewrite Haw, Ho. auto. }
   all: match goal with |- Wire _ _ (run_op ?ww ?o) =>
          assert (S : Step ww (run_op ww o)) by (apply HS; discriminate); set (w' := run_op ww o) in * end.
@@ -1522,6 +1652,68 @@ Proof.
 Qed.
 
 
+(* ------------------------------------------------------------------ a send whose transport raises *)
+
+Lemma run_snoc : forall w h o, run w (h ++ [o]) = run_op (run w h) o.
+Proof. intros. unfold run. rewrite fold_left_app. reflexivity. Qed.
+
+Lemma class_free_snoc : forall h o, class_free h = true -> KF_D11 o = false -> KF_D20 o = false ->
+  class_free (h ++ [o]) = true.
+Proof.
+  intros h o H A B. unfold class_free in *. rewrite forallb_app, H. cbn [forallb]. rewrite A, B. reflexivity.
+Qed.
+
+(* an original send over a transport that raises in write() (d = false) or in drain() after write() took the bytes
+   (d = true); the caller gets the exception, the object lives on.  Nothing is undone: the journal row stays, the number
+   is spent; whatever follows (further traffic, restarts) never uses a number again that the transport saw *)
+Lemma transport_fault_keeps_number : forall r h d m w',
+  class_free h = true -> own_number m = false ->
+  let w := run (fresh r) h in
+  send_fault d m w = (inr XIO, w') ->
+  let f := out_frame m (nout w) in
+  Inv w' /\ nout w' = nout w + 1 /\ sout (jt w') = nout w /\ In f (rout (jt w'))
+  /\ writes (log w') = writes (log w) ++ (if d then [f] else [])
+  /\ nout (restart w') = nout w + 1
+  /\ forall h', class_free h' = true ->
+       forall g f', In g (allwire w') -> original g = true ->
+                    In f' (skipn (length (allwire w')) (allwire (run w' h'))) -> original f' = true ->
+                    f_seq g < f_seq f'.
+Proof.
+  intros r h d m w' Hc Hm w Hs f.
+  assert (HI : Inv w) by (apply run_inv; auto using fresh_inv).
+  pose proof HI as ((Hcl & Hso & Hro & Hpo) & _ & _).
+  destruct (mtype_eqb (f_type m) TTest) eqn:Ht.
+  { rewrite send_fault_refused in Hs by auto. discriminate. }
+  destruct (send_gate w m) as [[s ro]|] eqn:Hg.
+  2:{ rewrite send_fault_refused in Hs by auto. discriminate. }
+  assert (Hh : has_out (jt w) (nout w) = false) by (apply has_out_false; exact Hro).
+  destruct (send_fault_alloc_ok d w m s ro Hg Ht Hm Hh) as [He Hd]. fold f in He, Hd.
+  rewrite He in Hs. inversion Hs; subst w'. clear Hs.
+  set (W' := fault_sent w s ro d f) in *.
+  assert (HjW' : jt W' = ins_out_tab (jt w) f) by (unfold jt at 1; rewrite Hd; reflexivity).
+  assert (Ho11 : KF_D11 (OSendFault d m) = false) by reflexivity.
+  assert (Ho20 : KF_D20 (OSendFault d m) = false) by (cbn [KF_D20]; rewrite Hm; reflexivity).
+  assert (Hrun : run (fresh r) (h ++ [OSendFault d m]) = W').
+  { rewrite run_snoc. fold w. unfold run_op. cbn [step]. rewrite He. reflexivity. }
+  assert (Hc1 : class_free (h ++ [OSendFault d m]) = true) by (apply class_free_snoc; auto).
+  assert (I' : Inv W') by (rewrite <- Hrun; apply run_inv; auto using fresh_inv).
+  assert (HW1 : Wire 1 0 W').
+  { rewrite <- Hrun. apply wire_run; auto using fresh_inv.
+    split; [cbn; lia|]. split; [cbn; lia|]. intros g Hg'. cbn in Hg'. contradiction. }
+  destruct HW1 as (_ & _ & HW1). cbn [skipn] in HW1.
+  split; [exact I'|]. split; [reflexivity|].
+  split; [rewrite HjW'; reflexivity|].
+  split; [rewrite HjW'; cbn [rout ins_out_tab]; apply in_or_app; right; left; reflexivity|].
+  split.
+  { cbn [W' fault_sent log]. unfold fault_effects. rewrite !writes_app, writes_stmts. destruct d; reflexivity. }
+  split; [destruct (restart_inv W' I') as (_ & _ & O & _); rewrite O; reflexivity|].
+  intros h' Hc' g f' Hg' Hog Hf' Hof'.
+  assert (HW : Wire (nout W') (length (allwire W')) W').
+  { split; [lia|]. split; [lia|]. intros x Hx. rewrite skipn_all in Hx. contradiction. }
+  destruct (wire_run _ _ h' _ I' Hc' HW) as (_ & _ & K).
+  specialize (K f' Hf' Hof'). specialize (HW1 g Hg' Hog). lia.
+Qed.
+
 (* ------------------------------------------------------------------ statements over class-free histories *)
 
 Lemma invariant_partial : forall r h, class_free h = true -> Inv (run (fresh r) h).
@@ -1628,6 +1820,19 @@ Lemma journaled_unwritten_recovered :
   let w2 := run (crash_at 11 w_send9) [OConnect; OIn (logon_frame 2); OIn (mkF TResend 3 false 2 0)] in
   st w2 = Active /\ nin w2 = 4 /\ nout w2 = 4
   /\ writes (log w2) = [logon_frame 3; mkF TApp 2 true 9 0; mkF TSeqReset 3 false 4 1].
+Proof. vm_compute. repeat split; reflexivity. Qed.
+
+(* the seeded scenario: initiator, Logon, order A (2), order B (3) whose bytes leave before drain() raises; the endpoint
+   is rebuilt from its journal: next_num_out 4, its Logon goes out under 4 - number 3 is not used again *)
+Definition h_drain_fault : list op :=
+  [OConnect; OSend (logon_frame 0); OIn (logon_frame 1); OSend (app_frame 0 1); OSendFault true (app_frame 0 2)].
+
+Lemma drain_fault_example :
+  class_free h_drain_fault = true /\
+  let w := run (fresh Initiator) h_drain_fault in
+  nout w = 4 /\ sout (jt w) = 3 /\ writes (log w) = [logon_frame 1; app_frame 2 1; app_frame 3 2]
+  /\ nout (restart w) = 4
+  /\ writes (log (run (restart w) [OConnect; OSend (logon_frame 0)])) = [logon_frame 4].
 Proof. vm_compute. repeat split; reflexivity. Qed.
 
 (* before the Logon exchange has completed nothing but Logon / Logout is acceptable: an application frame makes the
